@@ -5,6 +5,7 @@ import (
 	"math"
 	"reflect"
 	"regexp"
+	"strconv"
 	"strings"
 	"time"
 
@@ -265,6 +266,96 @@ func genWk(g *core.G) {
 	for _, name := range append([]string{"all"}, wkNames...) {
 		for n := 0; n < wkVariants; n++ {
 			g.Emit(fmt.Sprintf("@wk %s %d", name, n))
+		}
+	}
+}
+
+// ---- @objtg: the puppet tags handed to the reflector beside the Go type ------------------------------------------------
+
+// withExternalTags: a copy of the struct type whose own fields (not those of nested struct types) carry no tag in the Go
+// type; the tag text stays in the term, so every classifier reads it as before
+func withExternalTags(t *gty) *gty {
+	c := *t
+	c.fields = make([]gfield, len(t.fields))
+	for i, f := range t.fields {
+		f.ext = true
+		c.fields[i] = f
+	}
+	return &c
+}
+
+// externalTags: Go field name → content of its puppet tag for the fields marked ext (nil when there is none); the tag string
+// is taken apart by reflect.StructTag, not by pcore's own tag parser
+func externalTags(t *gty) map[string]string {
+	var m map[string]string
+	for _, f := range t.fields {
+		if p, ok := reflect.StructTag(f.tag).Lookup("puppet"); ok && f.ext {
+			if m == nil {
+				m = map[string]string{}
+			}
+			m[f.name] = p
+		}
+	}
+	return m
+}
+
+// ---- @objnorm: tag strings outside the conventional form ----------------------------------------------------------------
+
+// normalTags: the struct type with every field's tag replaced by puppet:"…" holding exactly what reflect.StructTag (Go's own
+// reader of the convention) finds under the key puppet — no tag when it finds none
+func normalTags(t *gty) *gty {
+	if t == nil {
+		return nil
+	}
+	c := *t
+	c.key, c.elem = normalTags(t.key), normalTags(t.elem)
+	c.fields = make([]gfield, len(t.fields))
+	for i, f := range t.fields {
+		f.t = normalTags(f.t)
+		if p, ok := reflect.StructTag(f.tag).Lookup("puppet"); ok {
+			f.tag = "puppet:" + strconv.Quote(p)
+		} else {
+			f.tag = ""
+		}
+		c.fields[i] = f
+	}
+	return &c
+}
+
+// oddTags: tag strings that stray from the convention in ways on which pcore's reader (types.ParseTags) and Go's agree —
+// blanks before, between and after the pairs; a key without a value, with nothing after the colon, with an unquoted or an
+// unterminated value; an empty key; a quote inside a key; an escaped quote inside a value; other keys before and after.
+// PUPPET stands for a well-formed puppet tag.  (Keys holding a blank are left out: pcore reads them, Go does not; the
+// property does not say which malformed tags are tolerated.)
+var oddTags = []string{
+	` PUPPET`, `PUPPET `, `   PUPPET   `, `json:"a"  PUPPET`, `json:"a" PUPPET yaml:"b"  `, `PUPPET json`, `PUPPET json:`, `PUPPET json:"a`,
+	`puppet`, `puppet:`, `puppet:"`, `:"x" PUPPET`, `json:x PUPPET`, `json: PUPPET`, `a"b:"x" PUPPET`, `json:"a\"b" PUPPET`, `json:"a\\" PUPPET`,
+	`json:"" PUPPET`, `PUPPET:`, `json:"a":PUPPET`, "\x7f:\"x\" PUPPET", `j`, `j:`, `:`, `"`, ` `, `json:"a" `, `json:"a" x`, `json:"a" :`,
+}
+
+func genOddTags(g *core.G) {
+	i8, str := &gty{kind: "int", w: 8}, &gty{kind: "string"}
+	puppets := []string{`puppet:"name=>'q'"`, `puppet:"value=>5"`, `puppet:"name=>'q', value=>-3"`}
+	for i, ot := range oddTags {
+		for j, p := range puppets {
+			tag := strings.Replace(ot, "PUPPET", p, -1)
+			if j > 0 && tag == ot {
+				continue
+			}
+			// the odd tag on the first field, on the last one, and on both
+			for k, S := range []*gty{
+				{kind: "struct", fields: []gfield{{name: "A", t: i8, tag: tag}, {name: "B", t: str}}},
+				{kind: "struct", fields: []gfield{{name: "A", t: str}, {name: "B", t: i8, tag: tag}}},
+				{kind: "struct", fields: []gfield{{name: "A", t: i8, tag: tag}, {name: "B", t: i8, tag: tag}}},
+			} {
+				if k == 2 && strings.Contains(tag, "name=>") {
+					continue // the same name on two attributes
+				}
+				g.Emit("@objnorm " + S.sexp().String() + " (st " + []string{"0 x61", "x 5", "5 -3"}[k] + ")")
+				if (i+j+k)%3 == 0 {
+					g.Emit("@refl " + S.sexp().String() + " (st " + []string{"-3 x", "x61 0", "1 2"}[k] + ")")
+				}
+			}
 		}
 	}
 }
